@@ -86,6 +86,9 @@ public:
   uint32_t *verifMemory() { return memory.data(); }
   size_t verifCycles() const { return cycles; }
   bool verifRunning() const { return running; }
+  // The cycle counter is simulated time: a run may start with it anywhere, and it may jump.
+  void verifSetCycles(size_t value) { cycles = value; }
+  static size_t &verifCycleBase() { static size_t base = 0; return base; }
 #endif
 
   Processor(std::istream &in, std::ostream &out, size_t maxCycles=0) :
@@ -273,6 +276,9 @@ public:
   }
 
   int run() {
+#ifdef HEX_VERIF
+    if (cycles == 0) cycles = verifCycleBase();
+#endif
     while (running &&
            (maxCycles > 0 ? cycles <= maxCycles : true)) {
       instr = (memory[pc >> 2] >> ((pc & 0x3) << 3)) & 0xFF;
